@@ -34,6 +34,8 @@ Step(e) ==
               THEN Reject("stale-or-partial-read", View(pend[e.r].op, pend[e.r].id), Res(e.res))
          ELSE pend' = Del(pend, e.r) /\ UNCHANGED <<boot, items, cobs>> /\ Keep
     [] e.ev = "ctx" -> cobs' = Put(cobs, <<e.n, e.id>>, TdLike(items, e.id)) /\ UNCHANGED <<boot, items, pend>> /\ Keep
+    [] e.ev = "cancelctx" ->     \* the parent of context n was cancelled
+         /\ cobs' = [c \in DOMAIN cobs |-> IF c[1] = e.n THEN TRUE ELSE cobs[c]] /\ UNCHANGED <<boot, items, pend>> /\ Keep
     [] e.ev = "ctxstate" ->
          LET c == <<e.n, e.id>> IN
          IF c \notin DOMAIN cobs THEN Reject("unknown-ctx", "", c)
